@@ -19,7 +19,7 @@ N_THOROUGH = 15000
 EXPLANATION = ''
 
 def profiles(thorough):
-    p = Profile(nT=3, nS=3, nG=3, nC=8, nK=2, specs={"fn": 4, "mem": 2, "trk": 2, "bref": 1, "nest": 1, "ownT": 0, "ownK": 2},
+    p = Profile(nT=3, nS=3, nG=3, nC=8, nK=2, specs={"fn": 4, "mem": 2, "trk": 2, "bref": 1, "nest": 1, "ownT": 0, "ownK": 2, "sc": 3},
                 body_prob=0.3, len=(15, 60 if not thorough else 150),
                 w={"connfn": 10, "conn": 4, "cpC": 6, "asgC": 4, "delC": 3, "newC": 2, "disc": 7, "connected?": 10, "emptyC?": 4,
                    "blockedC?": 3, "blockC": 4, "delT": 3, "clear": 2, "delG": 2, "emit": 5, "size?": 3},
